@@ -126,12 +126,12 @@ def check(case, ctx):
                 ctx.notes["hook-labels-unusable"] += 1
                 break
             dq = (mc.q_ref(case, after) - mc.q_ref(case, before)) * scale
-            if dq < -1e-9 * max(1.0, abs(scale)):
+            if dq < -1e-9 * abs(scale):
                 fails.append(Failure("%s:step-accepted-move-lowers-modularity" % name,
                                      "accepted move #%d (node %d: module %d -> %d) changes Q x scale by %r" % (t + 1, ev["node"], ev["src"] + 1, ev["dst"] + 1, dq),
                                      case, _info(W, [final, before])))
                 break
-            if abs(dq - ev["gain"]) > 1e-9 * max(1.0, abs(ev["gain"]), abs(dq)):
+            if abs(dq - ev["gain"]) > 1e-9 * max(abs(scale), abs(ev["gain"]), abs(dq)):
                 fails.append(Failure("%s:step-claimed-gain-differs-from-true-change" % name,
                                      "accepted move #%d (node %d: module %d -> %d): claimed gain %r, exact change in Q x scale = %r"
                                      % (t + 1, ev["node"], ev["src"] + 1, ev["dst"] + 1, ev["gain"], dq), case,
